@@ -126,7 +126,7 @@ def correspondence(rep: Report, rng, tier: str) -> None:
 
 
 # ------------------------------------------------------------------ oracle: autograd vs central finite differences
-def fd_compare(torch, f, params, grads, rng, max_entries=6):
+def fd_compare(torch, f, params, grads, rng, max_entries=6, full=("U",)):
     """central differences of the real scalar f() in up to `max_entries` random entries of each parameter.
     complex parameters: real and imaginary direction (torch's convention grad = dL/dx + i dL/dy). Returns (worst excess, detail)"""
     worst, detail = 0.0, None
@@ -139,7 +139,15 @@ def fd_compare(torch, f, params, grads, rng, max_entries=6):
         flat = p.detach().reshape(-1)
         idxs = list(range(flat.numel()))
         rng.shuffle(idxs)
-        for idx in idxs[:max_entries]:
+        if name in full and p.dim() == 2:
+            # every upper-triangle entry of the interaction matrix whose current value is EXACTLY 0 (a coupling that is switched
+            # off still has a gradient) + `max_entries` of the other entries; the dense oracle of c30_frechet.oracle_backward
+            # compares every entry of the U-gradient in every case
+            zeros = [k for k in idxs if k // p.shape[1] < k % p.shape[1] and flat[k].item() == 0.0]
+            chosen = zeros + [k for k in idxs if k not in zeros][:max_entries]
+        else:
+            chosen = idxs[:max_entries]
+        for idx in chosen:
             dirs = [(1.0, lambda z: z.real)] if not p.is_complex() else [(1.0, lambda z: z.real), (1j, lambda z: z.imag)]
             for d, part in dirs:
                 old = flat[idx].item()
@@ -170,7 +178,32 @@ def fd_compare(torch, f, params, grads, rng, max_entries=6):
                         excess, fd = ex4, fd4
                 if excess > worst:
                     worst, detail = excess, f"{name}[{idx}]{'(imag)' if d == 1j else ''}: autograd {ad:.9e} vs finite difference {fd:.9e}"
+                    if name == "U":
+                        detail += f" (current value U[{idx}] = {old!r}; {U_NOTE})"
     return worst, detail
+
+
+U_NOTE = ("Props.C30.dhd_U_is_n_n / interaction_derivative_exact: dH/dU_ij = n_i n_j for EVERY pair i < j, whatever the current value "
+          "of U_ij - an entry U_ij = 0 has a non-zero gradient in general")
+
+
+def sparse_U(rng, torch, n, scale):
+    """symmetric interaction matrix with EXACT zeros: dense / nearest-neighbour chain / random sparsity 30-80 % / all-zero
+    (a coupling that is currently 0 - zero-initialised, cut off, not a neighbour - still has a gradient). -> (U, pattern)"""
+    pattern = rng.choice(["dense", "chain", "sparse", "sparse", "zero"]) if n > 1 else "dense"
+    vals = torch.tensor([abs(rng.gauss(0, 1)) * scale for _ in range(n * n)], dtype=torch.float64).reshape(n, n)
+    keep = torch.ones(n, n, dtype=torch.bool)
+    if pattern == "chain":
+        keep = torch.zeros(n, n, dtype=torch.bool)
+        for i in range(n - 1):
+            keep[i, i + 1] = True
+    elif pattern == "sparse":
+        frac = rng.uniform(0.3, 0.8)
+        keep = torch.tensor([rng.random() >= frac for _ in range(n * n)]).reshape(n, n)
+    elif pattern == "zero":
+        keep = torch.zeros(n, n, dtype=torch.bool)
+    U = torch.triu(vals * keep, 1)
+    return U + U.T, pattern
 
 
 def evolve_case(rng, n, steps, zero_phase, special):
@@ -187,8 +220,7 @@ def evolve_case(rng, n, steps, zero_phase, special):
         om[:] = om[0].clone(); de[:] = de[0].clone(); ph[:] = ph[0].clone()
     elif special == "mixed-zero-phase":
         ph[:, rng.randrange(n)] = 0.0
-    U = g(n, n).abs() * 3
-    U = torch.triu(U, 1) + torch.triu(U, 1).T
+    U, u_pattern = sparse_U(rng, torch, n, 3.0)
     st = torch.complex(g(2 ** n), g(2 ** n))
     st = st / st.norm()
     r = torch.complex(g(2 ** n), g(2 ** n))
@@ -213,7 +245,7 @@ def evolve_case(rng, n, steps, zero_phase, special):
                 tot = tot + w[k] * (psi.view(2 ** k, 2, -1)[:, 1].abs() ** 2).sum()
             return tot
         return torch.vdot(psi, M @ psi).real
-    return params, f, dict(n=n, steps=steps, loss=loss_kind, special=special, zero_phase=zero_phase)
+    return params, f, dict(n=n, steps=steps, loss=loss_kind, special=special, zero_phase=zero_phase, u_pattern=u_pattern)
 
 
 def _prod(s):
@@ -234,6 +266,7 @@ def oracle_evolve(rep: Report, rng, count: int) -> None:
         params, f, info = evolve_case(rng, n, steps, zero_phase, special)
         rep.case(key=("evolve", i), nontrivial=True, trace=False)
         rep.hist("grad_case", f"{info['loss']}/{special}/{'phi0' if zero_phase else 'phi'}")
+        rep.hist("grad_case_U_pattern", info["u_pattern"])
         try:
             L = f()
             grads = dict(zip(params, torch.autograd.grad(L, list(params.values()), allow_unused=True)))
@@ -270,15 +303,16 @@ def oracle_full_run(rep: Report, rng, count: int) -> None:
         ph = torch.zeros(steps, n, dtype=torch.float64) if zero_ph else g(steps, n)
         if rng.random() < 0.5:
             om[1:] = om[0].clone()                # a flat (constant) drive segment
-        U = g(n, n).abs() * 5
-        U = torch.triu(U, 1) + torch.triu(U, 1).T
-        params = dict(omega=om.requires_grad_(True), delta=de.requires_grad_(True), phi=ph.requires_grad_(True))
+        U, u_pattern = sparse_U(rng, torch, n, 5.0)
+        rep.hist("fullrun_U_pattern", u_pattern)
+        params = dict(omega=om.requires_grad_(True), delta=de.requires_grad_(True), phi=ph.requires_grad_(True),
+                      U=U.requires_grad_(True))
         w = g(n)
         dt = rng.choice([40, 100])
 
         def f():
             data = SequenceData(params["omega"].to(torch.complex128), params["delta"].to(torch.complex128),
-                                params["phi"].to(torch.complex128), _InteractionMatrixCallable(U, U, 0.0),
+                                params["phi"].to(torch.complex128), _InteractionMatrixCallable(params["U"], params["U"], 0.0),
                                 tuple(f"q{q}" for q in range(n)), tuple([False] * n), [], 0.0,
                                 [float(dt * k) for k in range(steps + 1)], ["r", "g"], HamiltonianType.Rydberg)
             obs = [pb.Occupation(evaluation_times=[1.0]), pb.CorrelationMatrix(evaluation_times=[1.0])]
@@ -288,7 +322,7 @@ def oracle_full_run(rep: Report, rng, count: int) -> None:
             tot = (w * res.get_result("occupation", 1.0)).sum() + 0.3 * res.get_result("correlation_matrix", 1.0).sum()
             return tot
         rep.case(key=("fullrun", i), nontrivial=True, trace=False)
-        info = dict(n=n, steps=steps, dt=dt)
+        info = dict(n=n, steps=steps, dt=dt, u_pattern=u_pattern)
         try:
             L = f()
             grads = dict(zip(params, torch.autograd.grad(L, list(params.values()), allow_unused=True)))
@@ -299,7 +333,7 @@ def oracle_full_run(rep: Report, rng, count: int) -> None:
         rep.extra["fullrun_fd_max_excess"] = max(rep.extra.get("fullrun_fd_max_excess", 0.0), ex if ex != float("inf") else 0.0)
         if ex > 0:
             rep.fail(f"emu-sv run gradient: {detail} (beyond rel {RTOL_FD:.0e} + abs {ATOL_FD:.0e})",
-                     dict(kind="fullrun", **info, params={k: _ser(v) for k, v in params.items()}, U=_ser(U)))
+                     dict(kind="fullrun", **info, params={k: _ser(v) for k, v in params.items()}))
 
 
 def oracle_pchip(rep: Report, rng, count: int) -> None:
